@@ -165,6 +165,10 @@ class Pseudo2NetCDF:
             one = tuple(slice(0, 1) for _ in pvar.shape)
             typecode = np.asarray(pvar[one] if one else pvar[...]).dtype.char
 
+        if typecode == 'O' and isinstance(nfile, NetCDFFile):
+            # an object array of strings is a netCDF string variable
+            typecode = str
+
         create_variable_kwds = self.create_variable_kwds.copy()
         if hasattr(pvar, 'missing_value'):
             create_variable_kwds['fill_value'] = pvar.missing_value
